@@ -96,8 +96,8 @@ VARIANTS['C20'] = [
     V('peek copies to the end of the bucket',
       [(BR, "data[offset:offset + sz].tobytes()", "data[offset:].tobytes()")], 'R20.2', 'peek'),
     V('read no longer clamps the count',
-      [(BR, "            n = min(n, self.size - self.pos)\n            if n <= 0:\n                return r''\n        b = self.peek(n)",
-        "            if self.size - self.pos <= 0:\n                return r''\n        b = self.peek(n)")], 'R20.2', 'read'),
+      [(BR, "            n = min(n, self.size - self.pos)\n            if n <= 0:\n                return b''\n        b = self.peek(n)",
+        "            if self.size - self.pos <= 0:\n                return b''\n        b = self.peek(n)")], 'R20.2', 'read'),
     V('readall returns the rest of the file',
       [(BR, "            return self.read(self.size - self.pos)\n", "            pass\n")], 'R20.2', 'readall'),
     V('seek does not clamp to the window size',
@@ -1427,3 +1427,48 @@ _layered('C04', 'ancestor walk stops after the box itself', 'RF04/refactor2.diff
          [(MP4, "            if not atom.parent:\n                break\n            atom = atom.parent\n", "            break\n")], 'R04.3')
 _layered('C07', 'video sets receive the audio parameter set', 'RF05/refactor1.diff',
          [(MCTX, "self.cgi_params.video)", "self.cgi_params.audio)")], 'R07.4')
+
+VARIANTS['C13'] += [
+    V('suffix length clamped like a last-byte position',
+      [(B, "start = max(0, content_length - amount)", "start = content_length - min(amount, content_length - 1)")],
+      'R13.1', 'get_http_range'),
+    V('suffix range one byte too long',
+      [(B, "start = max(0, content_length - amount)", "start = max(0, content_length - amount - 1)")],
+      'R13.1', 'get_http_range'),
+    V('neutral: suffix start by comparison instead of max()',
+      [(B, "            start = max(0, content_length - amount)\n", "            if amount >= content_length:\n                start = 0\n            else:\n                start = content_length - amount\n")],
+      None),
+    V('neutral: suffix start clamped after the subtraction',
+      [(B, "            start = max(0, content_length - amount)\n", "            start = content_length - amount\n            if start < 0:\n                start = 0\n")],
+      None),
+]
+
+VARIANTS['C10'] += [
+    V('PlayReady pssh lists no key ids for a track with two keys',
+      [('dashlive/drm/playready.py', "        if len(keys) < 2:\n            return mp4.ContentProtectionSpecificBox(\n                version=0,", "        if len(keys) <= 2:\n            return mp4.ContentProtectionSpecificBox(\n                version=0,")],
+      'R10.7', 'generate_pssh'),
+    V('neutral: single-key test of the PlayReady pssh written the other way round',
+      [('dashlive/drm/playready.py', "        if len(keys) < 2:\n            return mp4.ContentProtectionSpecificBox(\n                version=0,", "        if not len(keys) >= 2:\n            return mp4.ContentProtectionSpecificBox(\n                version=0,")],
+      None),
+]
+
+VARIANTS['C18'] += [
+    V('decode time compared within a whole second',
+      [(VMS, "                self.expected_decode_time,\n                self.decode_time,\n                delta=self.tolerance,\n", "                self.expected_decode_time,\n                self.decode_time,\n                delta=self.parent.dash_timescale(),\n")],
+      'R18.13', 'validate_segment'),
+    V('neutral: segment tolerance named before the decode time is compared',
+      [(VMS, "            self.elt.check_almost_equal(\n                self.expected_decode_time,\n                self.decode_time,\n                delta=self.tolerance,\n",
+        "            allowed = self.tolerance\n            self.elt.check_almost_equal(\n                self.expected_decode_time,\n                self.decode_time,\n                delta=allowed,\n")],
+      None),
+]
+
+VARIANTS['C19'] += [
+    V('fraction read as a number and scaled up until it has six digits',
+      [(DT, "                    kwargs['microsecond'] = int(frac[:6].ljust(6, '0'), 10)\n",
+        "                    micros = int(frac[:6] or '0', 10)\n                    while 0 < micros < 100000:\n                        micros *= 10\n                    kwargs['microsecond'] = micros\n")],
+      'R19.2', 'from_isodatetime'),
+    V('neutral: fraction scaled by the number of digits that are missing',
+      [(DT, "                    kwargs['microsecond'] = int(frac[:6].ljust(6, '0'), 10)\n",
+        "                    digits = frac[:6]\n                    kwargs['microsecond'] = int(digits, 10) * 10 ** (6 - len(digits))\n")],
+      None),
+]
